@@ -243,7 +243,11 @@ var c03Queries = []string{"", "", "", "?archive=tar", "?archive=zip", "?archive=
 
 func c03Gen(g *hx.Gen) {
 	all := c03Sites(g)
-	defer c03AddrsGen(g, all[:28])
+	hand := all // the hand-made sites come first; thorough appends generated combinations
+	if len(hand) > 28 {
+		hand = hand[:28]
+	}
+	defer c03AddrsGen(g, hand)
 	for _, s := range all {
 		sf := s.fields()
 		emitC := func(method, target, ae, cred, cond string) {
